@@ -160,6 +160,17 @@ let conv_oracle (_d : memdict) (_k : engine_kind) (c : composition) (n : nat) : 
       pending := (c, l) :: !pending;
       l.l_result
 
+(* OCaml string -> extracted Coq string (ascii = Ascii of 8 bools, least significant first) *)
+let ascii_of_char ch =
+  let c = Char.code ch in
+  let b i = c land (1 lsl i) <> 0 in
+  Ascii.Ascii (b 0, b 1, b 2, b 3, b 4, b 5, b 6, b 7)
+let coq_string (s : string) =
+  let rec go i =
+    if i >= Stdlib.String.length s then String.EmptyString else String.String (ascii_of_char (Stdlib.String.get s i), go (i + 1))
+  in
+  go 0
+
 (* ---- the C context around the editor (Model/CapiKeys.v): keyboard number and selection keys ---- *)
 let cx_kb_ref = ref (n_of_int 0)
 let cx_sel_ref = ref CapiKeys.default_sel_keys
@@ -229,6 +240,15 @@ let run_op (e : medl) (words : string list) : (medl * string) Lib.outcome =
   | [ "ccommit" ] -> crc (CapiKeys.commit_preedit conv_oracle (cctx_of e))
   | [ "ccleanpre" ] -> let c, rc = CapiKeys.clean_preedit (cctx_of e) in Lib.Ok (keep_ctx c, string_of_int (Convz.int_of_z rc))
   | [ "ccleanbopo" ] -> let c, rc = CapiKeys.clean_bopomofo (cctx_of e) in Lib.Ok (keep_ctx c, string_of_int (Convz.int_of_z rc))
+  | [ "cupadd"; tb ] ->
+      (match split '|' tb with
+       | [ t; b ] -> crc (CapiConfig.userphrase_add (cctx_of e) (ns_of '.' t) (ns_of '.' b))
+       | _ -> failwith "cupadd")
+  | [ "cupremove"; tb ] ->
+      (match split '|' tb with
+       | [ t; b ] -> crc (CapiConfig.userphrase_remove (cctx_of e) (ns_of '.' t) (ns_of '.' b))
+       | _ -> failwith "cupremove")
+  | [ "cseti"; name; v ] -> crc (CapiConfig.config_set_int_c (cctx_of e) (coq_string name) (Convz.z_of_int (int_of_string v)))
   | [ "creset" ] -> Lib.Ok (keep_ctx (CapiKeys.reset (cctx_of e)), "-")
   | [ "layout"; k ] -> ok1 (ml_set_layout e (n_of_int (int_of_string k))) "-"
   | [ "clearsyl" ] -> Lib.Ok (ml_clear_syl e, "-")
@@ -275,11 +295,19 @@ let observe oc (e : medl) =
     if !capi_mode then begin
       let c = cctx_of e in
       let c = { c with CapiKeys.cx_kbcompat = !cx_kbcompat_ref } in
-      Printf.fprintf oc "OC flags=%s commit=%s buffer=%s cands=%s aux=%s\n"
+      let cfg_names =
+        [ "chewing.easy_symbol_input"; "chewing.esc_clear_all_buffer"; "chewing.space_is_select_key"; "chewing.auto_shift_cursor";
+          "chewing.phrase_choice_rearward"; "chewing.disable_auto_learn_phrase"; "chewing.auto_commit_threshold";
+          "chewing.candidates_per_page"; "chewing.language_mode"; "chewing.character_form"; "chewing.user_phrase_add_direction";
+          "chewing.conversion_engine"; "chewing.enable_fullwidth_toggle_key" ]
+      in
+      Printf.fprintf oc "OC flags=%s commit=%s buffer=%s cands=%s aux=%s cfg=%s\n"
         (Stdlib.String.concat "," (Stdlib.List.map (fun z -> string_of_int (Convz.int_of_z z)) (CapiKeys.c_flags c)))
         (cps (CapiKeys.c_commit_string c)) (cps disp)
         (Stdlib.String.concat ";" (Stdlib.List.map cps (CapiKeys.c_cand_enumerate c)))
         (cps (CapiKeys.c_aux_string c))
+        (Stdlib.String.concat ","
+           (Stdlib.List.map (fun n -> string_of_int (Convz.int_of_z (CapiConfig.config_get_int_c c (coq_string n)))) cfg_names))
     end
   with Oracle_underflow -> Printf.fprintf oc "O PANIC\n"
 
